@@ -359,7 +359,7 @@ fn service_scripts() -> ActorScripts {
 impl<const K: usize> Actor for H<K> {
     async fn started(&mut self, ctx: &mut Context<Self>) -> DynResult<()> {
         let me = cur_task();
-        crate::scenario::bind_name(hannibal::verif::VerifId::__verif_id(&*ctx), &me);
+        crate::scenario::rebind_name(hannibal::verif::VerifId::__verif_id(&*ctx), &me);
         let (scr, _inc) = WORLD.with(|w| {
             let mut w = w.borrow_mut();
             let n = w.starts.entry(me.clone()).or_insert(0);
